@@ -35,6 +35,9 @@ type Step struct {
 	Accepted bool   `json:"accepted"`
 	SaveTemp bool   `json:"saveTemp"`
 	Ok       bool   `json:"ok"`
+	Obs      struct {
+		Fin uint32 `json:"fin"`
+	} `json:"obs"`
 }
 
 type Dump struct {
@@ -308,6 +311,7 @@ func main() {
 	cfg.Network = false
 	maxScripts, _ := strconv.Atoi(os.Args[5])
 	maxPoints, _ := strconv.Atoi(os.Args[6])
+	finOnly := len(os.Args) > 7 && os.Args[7] == "fin"
 	f, err := os.Open(os.Args[1])
 	if err != nil {
 		panic(err)
@@ -323,6 +327,12 @@ func main() {
 		}
 		// cut the script after its last block/delete step that took effect
 		s := d.Script
+		if finOnly {
+			// C04: cut after the last applied block that raises the finalized height
+			for len(s) > 0 && !(s[len(s)-1].Op == "block" && s[len(s)-1].Accepted && ((len(s) == 1 && s[0].Obs.Fin > 0) || (len(s) > 1 && s[len(s)-1].Obs.Fin > s[len(s)-2].Obs.Fin))) {
+				s = s[:len(s)-1]
+			}
+		}
 		for len(s) > 0 && !((s[len(s)-1].Op == "block" && s[len(s)-1].Accepted) || (s[len(s)-1].Op == "delete" && s[len(s)-1].Ok)) {
 			s = s[:len(s)-1]
 		}
@@ -330,7 +340,7 @@ func main() {
 			continue
 		}
 		last := s[len(s)-1]
-		shape := fmt.Sprintf("%s/%d/%s/%d/%d/%v/len%d", last.Op, last.Chg, last.Ac.Kind, last.Ntx, last.H, last.SaveTemp, len(s))
+		shape := fmt.Sprintf("%s/%d/%s/%d/%d/%v/len%d/fin%d", last.Op, last.Chg, last.Ac.Kind, last.Ntx, last.H, last.SaveTemp, len(s), last.Obs.Fin)
 		if shapes[shape] {
 			continue
 		}
